@@ -105,6 +105,10 @@ def small_asts(thorough):
     out = list(G.enum_asts(max_nodes=4 if thorough else 3, syms=(None, '='), max_rings=1, markers=('1', '%10'),
                            ring_syms=(None, '='), node_mults=(), branch_mults=(), max_depth=3, max_branches=2))
     out += list(G.enum_asts(max_nodes=3, syms=(None, '#'), max_rings=0, node_mults=('2', '3'), max_mults=2))
+    # a ring id closed and reopened behind the same node (two rings sharing a node), in every spelling pair
+    out += [a for a in G.enum_asts(max_nodes=5, syms=(None,), max_rings=0, ring_syms=(None, '='), max_depth=2, max_branches=1,
+                                   reuse=(('1', '1', '1'), ('1', '%01', '1'), ('%12', '%12', '%12'), ('%01', '1', '%01')))
+            if any(len(it['r']) >= 2 for it in G.items_in_order(a))]
     return out
 
 
